@@ -8,7 +8,7 @@ from props.common import *
 from props import pyref
 
 TRUSTED_BASE = ['keyword matching is checked against Python\'s re: a bare keyword is caseless with * as a wildcard, a quoted keyword is its literal text, case-sensitive (README; fix 9cc9c86); the regex crate is not modelled',
-                'a blank in a keyword matches any single whitespace character (implementation and model); the property only says "literal text": the check follows the implementation there']
+                'a blank in a quoted keyword is a blank (README: only parse patterns match any whitespace)']
 ASSUMPTIONS = ['keywords use ASCII letters for case variation']
 
 BARE = ['error', 'ERROR', 'warn', 'a.b', 'x-y', 'foo_bar', 'a*b', 'a*', '*b', 'GET', '/index', 'user@host', '100%', 'c++', 'NOTHING', 'ORDER', 'ANDROID', 'k:v', '$5', '#tag', '^x', '*', '*', '**']
